@@ -78,6 +78,9 @@ func (e *Engine) VerifyFunctionFor(fn *ssa.Function, safe bool, prop string) (re
 			collect(sf.Body)
 		}
 	}
+	for n := range vc.countNames {
+		vc.mapSort("$calls_"+strings.ReplaceAll(n, ".", "__"), "Int")
+	}
 	fr := vc.newFrame(fn, 0, "")
 	fr.isTop = true
 	vc.stack = []*ssa.Function{fn}
